@@ -66,7 +66,9 @@ def handle (op : String) (j : Json) : Except String Json := do
       oper, subRaises := fun k => subR.contains k, actRaises := fun k => actR.contains k,
       cbErr := fun k => s!"cb{k}", actErr := fun k => s!"act{k}",
       hasNext := isDo || has.getD 0 true, hasError := isDo || has.getD 1 true, hasCompleted := isDo || has.getD 2 true,
-      resf, obsfRaises := (← getStr j "obsf") == "raise" }
+      resf, obsfRaises := (← getStr j "obsf") == "raise",
+      -- `res_kind` (truthy / falsy resource objects) is deliberately not read: `if resource is not None`
+      srcDisposeRaises := (j.getObjValAs? Bool "srcd_raises").toOption.getD false }
     let sync ← (← getArr j "sync").mapM notifOfJson
     let syncExn := (j.getObjValAs? String "sync_exn").toOption
     let evs ← (← getArr j "trace").mapM evOfJson
